@@ -355,6 +355,9 @@ def gen_params(rng, i, seed):
     else:
         p["p_hostile"] = rng.choice([0.1, 0.4, 0.9, 1.0])
         p["focus"] = hostile_cli.CLASSES[(i // 5) % len(hostile_cli.CLASSES)]
+        if p["focus"] in ("frag_flood", "compressed_many", "huge_rdata") and kind == "tunnel":
+            # the classes that need volume get it: every ping/data answer hostile, the large-answer record types, a long run
+            p.update(p_hostile=1.0, qtype=["MX", "SRV", "MX", "TXT"][(i // 95) % 4], tunnel_s=40, lazy0=False, m=None)
         if kind == "tunnel" and rng.random() < 0.4:
             p["starve"] = True                 # answers dry up: the client falls back to -I1, then leaves lazy mode in mid-tunnel
             p["tunnel_s"] = 58
